@@ -106,6 +106,11 @@ pub struct AbortCase {
     /// the abort packet itself carries a receipt-number field (06 1E 04 <code> 87 nn nn)
     #[serde(default)]
     pub with_receipt: Option<u64>,
+    /// the first attempt of the exchange loses its connection at this packet position (0 = instead of the acknowledgement,
+    /// 1 = instead of the first reply, 99 = instead of the completion, i.e. behind the status information); the abort answers
+    /// the re-sent request on the new connection
+    #[serde(default)]
+    pub prior_fault: Option<usize>,
     /// a dangling pre-authorisation exists (needed for the dangling-reversal site)
     pub dangling: bool,
     pub terminal_id_differs: bool,
@@ -131,7 +136,13 @@ pub const SITES: [(&str, Kind, bool, bool); 16] = [
     ("cancel", Kind::EndOfDay, true, false),
 ];
 
+thread_local! {
+    /// set by check_abort when the aborted exchange never took place (the case says nothing)
+    pub static NOT_REACHED: std::cell::Cell<bool> = const { std::cell::Cell::new(false) };
+}
+
 pub fn check_abort(c: &AbortCase) -> CheckResult {
+    NOT_REACHED.with(|n| n.set(false));
     let input = serde_json::to_value(c).unwrap();
     let site = format!("{:?}", c.site);
     let v = |kind: &str, detail: String| Err(Violation::new("abort", format!("C20 op={} site={site} kind={kind}", c.op), detail, input.clone()));
@@ -162,7 +173,14 @@ pub fn check_abort(c: &AbortCase) -> CheckResult {
         _ => 0,
     };
     // in `cancel`, the dangling reversal is the second PreAuthReversal: not a separate site (same code path as configure's)
-    sc.plan = vec![PlanEntry { kind: c.site, occ: Some(occ), from_start: false, directive: Directive { outcome: if let Some(rc) = c.with_receipt { Outcome::AbortWithReceipt(c.code, rc) } else if c.after_status { Outcome::AbortAfterStatus(c.code) } else { Outcome::Abort(c.code) }, ..Default::default() } }];
+    // (a reconnect vets the new connection with its own system-info exchange: the re-sent system info is the third one)
+    let abort_occ = if c.prior_fault.is_some() { occ + if c.site == Kind::SystemInfo { 2 } else { 1 } } else { occ };
+    sc.plan = vec![PlanEntry { kind: c.site, occ: Some(abort_occ), from_start: false, directive: Directive { outcome: if let Some(rc) = c.with_receipt { Outcome::AbortWithReceipt(c.code, rc) } else if c.after_status { Outcome::AbortAfterStatus(c.code) } else { Outcome::Abort(c.code) }, ..Default::default() } }];
+    if let Some(p) = c.prior_fault {
+        let chatty = matches!(c.site, Kind::Init | Kind::EndOfDay | Kind::ReadCard | Kind::Reservation | Kind::PartialReversal | Kind::PreAuthReversal);
+        let pos = if p == 99 { 1 + if chatty { c.intermediates } else { 0 } + 1 } else { p };
+        sc.plan.push(PlanEntry { kind: c.site, occ: Some(occ), from_start: false, directive: Directive { fault: Some((FaultKind::Close, pos)), ..Default::default() } });
+    }
     let tr = guard(|| run_scenario(&sc)).map_err(|p| Violation::new("abort", format!("C20 op={} kind=harness-panic", c.op), p, input.clone()))?;
     if !tr.new_returned {
         return Ok(());
@@ -170,7 +188,8 @@ pub fn check_abort(c: &AbortCase) -> CheckResult {
     let call = tr.calls.last().unwrap();
     // the aborted exchange must actually have happened (otherwise the case says nothing)
     let reqs = decoded_requests(&tr.world, call.req_from, call.req_to);
-    if !reqs.iter().any(|r| r.0 == c.site) {
+    if reqs.iter().filter(|r| r.0 == c.site).count() < abort_occ + 1 {
+        NOT_REACHED.with(|n| n.set(true));
         return Ok(());
     }
     if let Some(p) = &call.panicked {
@@ -243,7 +262,7 @@ pub fn run(tier: Tier) -> i32 {
                 // the abort may also come behind a print line and a status information (declined payment)
                 let status_site = matches!(site, Kind::Reservation | Kind::PartialReversal | Kind::PreAuthReversal | Kind::EndOfDay);
                 if status_site {
-                    let c2 = AbortCase { op: op.to_string(), site, code: code as u8, intermediates: inter, after_status: true, with_receipt: None, dangling, terminal_id_differs: tid };
+                    let c2 = AbortCase { op: op.to_string(), site, code: code as u8, intermediates: inter, after_status: true, with_receipt: None, prior_fault: None, dangling, terminal_id_differs: tid };
                     st.case(true, fnv(&serde_json::to_vec(&c2).unwrap()));
                     st.class(&format!("{op}/{site:?}:after-status-information"));
                     ctx.record(check_abort(&c2), st);
@@ -251,13 +270,34 @@ pub fn run(tier: Tier) -> i32 {
                 // the reversal / end-of-day family may put a receipt-number field into the abort packet itself
                 if matches!(site, Kind::PendingQuery | Kind::PartialReversal | Kind::PreAuthReversal | Kind::EndOfDay) && inter == 0 {
                     for rc in [0xffffu64, 4711] {
-                        let c3 = AbortCase { op: op.to_string(), site, code: code as u8, intermediates: 0, after_status: false, with_receipt: Some(rc), dangling, terminal_id_differs: tid };
+                        let c3 = AbortCase { op: op.to_string(), site, code: code as u8, intermediates: 0, after_status: false, with_receipt: Some(rc), prior_fault: None, dangling, terminal_id_differs: tid };
                         st.case(true, fnv(&serde_json::to_vec(&c3).unwrap()));
                         st.class(&format!("{op}/{site:?}:abort-with-receipt-field"));
                         ctx.record(check_abort(&c3), st);
                     }
                 }
-                let c = AbortCase { op: op.to_string(), site, code: code as u8, intermediates: inter, after_status: false, with_receipt: None, dangling, terminal_id_differs: tid };
+                // the abort answers a request that was re-sent after the first attempt lost its connection
+                if inter <= 1 {
+                    let mut priors = vec![0usize, 1];
+                    if status_site {
+                        priors.push(99);
+                    }
+                    for pf in priors {
+                        for after_status in [false, true] {
+                            if after_status && !status_site {
+                                continue;
+                            }
+                            let c4 = AbortCase { op: op.to_string(), site, code: code as u8, intermediates: inter, after_status, with_receipt: None, prior_fault: Some(pf), dangling, terminal_id_differs: tid };
+                            st.case(true, fnv(&serde_json::to_vec(&c4).unwrap()));
+                            st.class(&format!("{op}/{site:?}:abort-of-the-re-sent-request"));
+                            ctx.record(check_abort(&c4), st);
+                            if NOT_REACHED.with(|n| n.get()) {
+                                st.class(&format!("{op}/{site:?}:abort-of-the-re-sent-request:not-reached(exchange-is-not-retried)"));
+                            }
+                        }
+                    }
+                }
+                let c = AbortCase { op: op.to_string(), site, code: code as u8, intermediates: inter, after_status: false, with_receipt: None, prior_fault: None, dangling, terminal_id_differs: tid };
                 st.case(true, fnv(&serde_json::to_vec(&c).unwrap()));
                 st.class(&format!("{op}/{site:?}"));
                 if code == 0x64 && inter == 1 {
@@ -275,7 +315,7 @@ pub fn run(tier: Tier) -> i32 {
             let strat = (0usize..SITES.len(), any::<u8>(), 0usize..6, any::<bool>());
             ctx.proptest(seed, 20_000, &strat, st, |(si, code, inter, dang), st| {
                 let (op, site, dangling, tid) = SITES[*si];
-                let c = AbortCase { op: op.to_string(), site, code: *code, intermediates: *inter, after_status: *inter % 2 == 1, with_receipt: if *inter % 3 == 2 { Some(*code as u64 * 7 % 9999) } else { None }, dangling: dangling || *dang, terminal_id_differs: tid };
+                let c = AbortCase { op: op.to_string(), site, code: *code, intermediates: *inter, after_status: *inter % 2 == 1, with_receipt: if *inter % 3 == 2 { Some(*code as u64 * 7 % 9999) } else { None }, prior_fault: match *inter { 4 => Some(0), 5 => Some(99), _ => None }, dangling: dangling || *dang, terminal_id_differs: tid };
                 st.case(true, fnv(&serde_json::to_vec(&c).unwrap()));
                 st.class("random");
                 check_abort(&c)
@@ -283,7 +323,7 @@ pub fn run(tier: Tier) -> i32 {
         });
         stats.merge(s);
     }
-    stats.exhaustive_parts = vec!["all 256 result codes x 16 (operation, exchange) sites x abort directly after the ack / after 1 and 3 intermediate packets / behind a print line and a status information carrying a receipt number".into()];
+    stats.exhaustive_parts = vec!["all 256 result codes x 16 (operation, exchange) sites x abort directly after the ack / after 1 and 3 intermediate packets / behind a print line and a status information carrying a receipt number / as the answer to a request re-sent after the first attempt lost its connection (instead of the acknowledgement, of the first reply, of the completion)".into()];
     ctx.finish(
         stats,
         "enumeration: every result code 0..255 x every exchange in which the terminal may abort (read_card; begin: Reservation; commit: PartialReversal, pending query, dangling reversal, end-of-day; cancel: PreAuthReversal, pending query, end-of-day; configure: system info, SetTerminalId, Initialization, pending query, dangling reversal, end-of-day) x position of the abort in the reply script. Oracle: the call returns Err whose chain contains ZVTError::Aborted(c), or whose text contains the code (hex or decimal), or - for read_card - the specification's message for c (own copy of the chapter-10 table); documented translations checked positively (read_card+6c => NoCardPresented, Reservation+fc => NeedsPinEntry, end-of-day+a0 => Ok). For the pending query only codes != b8 count as aborts. non-trivial = every case; distinct by (op, site, code, position)",
